@@ -155,6 +155,7 @@ type c17Model struct {
 	must  [][]byte // packets that contributed (must appear, in order)
 	may   [][]byte // all packets submitted since the last unit start that passed the gate (super-sequence bound)
 	perr  error    // the predicate's error, once it has failed in this unit (an accumulator may go on refusing with it)
+	soft  bool     // the unit was opened by a unit-start packet WITHOUT payload (refused with an error) and nothing was accepted since
 	opt   int      // packets of may that may or may not be listed (empty payload, predicate failed: a rollback is invisible)
 }
 
@@ -313,6 +314,7 @@ func checkC17(c CaseC17, x *hx.Ctx) *hx.Failure {
 					m.may = nil
 					m.opt = 0
 					m.perr = nil
+					m.soft = false
 				}
 				m.may = append(m.may, clone(b[:]))
 				// payload flag set but adaptation_field_length 183 leaves no payload byte (ISO allows 182 at most there): an
@@ -326,8 +328,21 @@ func checkC17(c CaseC17, x *hx.Ctx) *hx.Failure {
 					if err == nil {
 						return hx.Failf("no-payload-no-error", "%s: a packet without payload was not reported as an error", desc)
 					}
+					if rp.PUSI {
+						m.soft = true
+					}
 					break
 				}
+				if m.soft && len(m.buf) == 0 && err != nil && len(acc.Bytes()) == 0 {
+					if d2, e2 := pred(rp.Payload); !(d2 && errors.Is(err, gots.ErrAccumulatorDone)) && !(e2 != nil && errors.Is(err, e2)) {
+						// the unit start was a packet without payload, which was refused: whether that refused packet opened the
+						// unit (continuation packets are taken) or not (they are refused until a unit start with payload) is not stated
+						x.Label("payloadless-unit-start-did-not-open-a-unit")
+						m.state, m.may, m.soft = 0, nil, false
+						break
+					}
+				}
+				m.soft = false
 				if m.perr != nil && err != nil && errors.Is(err, m.perr) && bytes.Equal(acc.Bytes(), m.buf) {
 					if d2, e2 := pred(append(clone(m.buf), rp.Payload...)); !d2 && !errors.Is(e2, m.perr) {
 						// the predicate failed earlier in this unit and the accumulator keeps refusing with that error until
